@@ -78,7 +78,7 @@ def ops_eval(e, data, leaves):
     if tag == "binary":
         return getattr(ops, e[1])(ops_eval(e[2], data, leaves), ops_eval(e[3], data, leaves))
     if tag == "outreduce":
-        return getattr(ops, e[1])(ops_eval(e[2], data, leaves), e[3], e[4])
+        return getattr(ops, e[1])(ops_eval(e[2], data, leaves), axis=e[3], keepdims=e[4])
     if tag == "getitem":
         return ops.getitem(ops_eval(e[1], data, leaves), ops_eval(e[2], data, leaves))
     if tag == "getslice":
@@ -193,6 +193,14 @@ def instances(tier, seed):
             out.append(("p", p, "trace"))
         if rng.random() < 0.2:
             out.append(("p", p, "kwargs"))
+    # parametrised ops with an earlier parameter at its default and a later one not (printing / pickling of op params)
+    from lang.prog import outreduce, var, binary, num
+    m = var("m", VARS["m"])
+    for opn in ("sum", "amax", "amin", "prod", "mean", "var", "std", "logsumexp"):
+        for axis, kd in ((None, True), (0, True), (1, False), (-1, True), (None, False)):
+            p = binary("add", outreduce(opn, m if opn != "logsumexp" else m, axis, kd), num(2.0))
+            for mode in ("compile", "code", "pickle", "trace"):
+                out.append(("p", p, mode))
     for p in gen_programs(rng, n, 3 if tier == "quick" else 4, False):      # number constants only: printable / picklable
         out.append(("p", p, "compile"))
         out.append(("p", p, "code"))
